@@ -686,18 +686,27 @@ func (t *tokenizer) skipContainerHelper(term int) error {
 		panic(fmt.Sprintf("unexpected character: %q. Expected one of the closing container characters: ] } )", term))
 	}
 
+	// The terminators of the containers that are currently open. Nesting costs a byte of heap per
+	// level instead of a stack frame: a few megabytes of opening brackets must not overflow the stack.
+	terms := []byte{byte(term)}
+
 	for {
 		c, _, err := t.skipWhitespace()
 		if err != nil {
 			return err
 		}
 
+		if c == int(terms[len(terms)-1]) {
+			terms = terms[:len(terms)-1]
+			if len(terms) == 0 {
+				return nil
+			}
+			continue
+		}
+
 		switch c {
 		case -1:
 			return t.invalidChar(c)
-
-		case term:
-			return nil
 
 		case '"':
 			if err := t.skipStringHelper(); err != nil {
@@ -720,14 +729,10 @@ func (t *tokenizer) skipContainerHelper(term int) error {
 			}
 
 		case '(':
-			if err := t.skipContainerHelper(')'); err != nil {
-				return err
-			}
+			terms = append(terms, ')')
 
 		case '[':
-			if err := t.skipContainerHelper(']'); err != nil {
-				return err
-			}
+			terms = append(terms, ']')
 
 		case '{':
 			c, err := t.peek()
@@ -747,9 +752,7 @@ func (t *tokenizer) skipContainerHelper(term int) error {
 					return err
 				}
 			} else {
-				if err := t.skipContainerHelper('}'); err != nil {
-					return err
-				}
+				terms = append(terms, '}')
 			}
 		}
 	}
